@@ -4,4 +4,13 @@ namespace BiotiteModel.Gen.C05
 def typeCodes : List (String × Nat) := [("INT8", 1), ("INT16", 2), ("INT32", 3), ("UINT8", 4), ("UINT16", 5), ("UINT32", 6), ("FLOAT32", 32), ("FLOAT64", 33)]
 /-- `_TYPE_CODE_TO_DTYPE`: (member name, numpy dtype string). -/
 def typeCodeToDtype : List (String × String) := [("INT8", "|i1"), ("INT16", "<i2"), ("INT32", "<i4"), ("UINT8", "|u1"), ("UINT16", "<u2"), ("UINT32", "<u4"), ("FLOAT32", "<f4"), ("FLOAT64", "<f8")]
+/-- parameter names each encoding class declares (`__annotations__`, in order) — what `Encoding.serialize` writes. -/
+def encodingParams : List (String × List String) := [("ByteArrayEncoding", ["type"]), ("FixedPointEncoding", ["factor", "src_type"]), ("IntervalQuantizationEncoding", ["min", "max", "num_steps", "src_type"]), ("RunLengthEncoding", ["src_size", "src_type"]), ("DeltaEncoding", ["src_type", "origin"]), ("IntegerPackingEncoding", ["byte_count", "src_size", "is_unsigned"]), ("StringArrayEncoding", ["strings", "data_encoding", "offset_encoding"])]
+/-- `_encoding_classes_kinds`: class name → kind. -/
+def encodingKinds : List (String × String) := [("ByteArrayEncoding", "ByteArray"), ("FixedPointEncoding", "FixedPoint"), ("IntervalQuantizationEncoding", "IntervalQuantization"), ("RunLengthEncoding", "RunLength"), ("DeltaEncoding", "Delta"), ("IntegerPackingEncoding", "IntegerPacking"), ("StringArrayEncoding", "StringArray")]
+/-- `_encoding_classes`: kind → class name. -/
+def encodingClasses : List (String × String) := [("ByteArray", "ByteArrayEncoding"), ("FixedPoint", "FixedPointEncoding"), ("IntervalQuantization", "IntervalQuantizationEncoding"), ("RunLength", "RunLengthEncoding"), ("Delta", "DeltaEncoding"), ("IntegerPacking", "IntegerPackingEncoding"), ("StringArray", "StringArrayEncoding")]
+/-- keys `StringArrayEncoding.serialize` writes / `StringArrayEncoding.deserialize` reads (it does not use the name maps). -/
+def stringArrayWritten : List String := ["kind", "dataEncoding", "stringData", "offsets", "offsetEncoding"]
+def stringArrayRead : List String := ["dataEncoding", "offsetEncoding", "offsets", "stringData"]
 end BiotiteModel.Gen.C05
